@@ -22,7 +22,7 @@ def gen_op(rng, pool, fam=None, entries=True):
     ix = lambda: rng.randrange(len(pool))
     some = lambda: [ix() for _ in range(rng.pick([0, 1, 1, 2, 3]))]
     if fam == 4:
-        k = rng.pick(["L", "L", "C", "G"])
+        k = rng.pick(["L", "L", "P", "P", "C", "G"])
     else:
         k = rng.pick(["L", "L", "R", "R", "P", "P", "P", "C", "K", "G", "Q"])
     if k == "L":
@@ -65,11 +65,15 @@ def gen_profile_sweep(rng, i):
 
 def gen_pair_sweep(rng, i):
     """two calls of one family on one resource; the second runs to its end while the first is parked at its k-th lock"""
-    fam = rng.pick([0, 1, 2, 3])
+    fam = rng.pick([0, 1, 2, 3, 4])
     pool = [(1, 1, 1), (2, 1, 2), (3, 1, 3), (4, 2, 4)]
     setup = [("L", fam, [0, 3])] if rng.chance(0.7) else []
-    first = rng.pick([("P", fam, 1), ("P", fam, 2), ("R", fam, 1, [1, 2]), ("L", fam, [0, 1, 3]), ("R", fam, 1, [])])
-    second = rng.pick([("K", fam, 1), ("C", fam), ("R", fam, 1, []), ("P", fam, 2), ("L", fam, [3]), ("G", fam), ("B", 1)])
+    if fam == 4:
+        first = rng.pick([("P", fam, 1), ("P", fam, 2), ("L", fam, [0, 1, 3]), ("L", fam, [1])])
+        second = rng.pick([("C", fam), ("P", fam, 2), ("L", fam, [3]), ("L", fam, [1, 2]), ("G", fam), ("B", 1)])
+    else:
+        first = rng.pick([("P", fam, 1), ("P", fam, 2), ("R", fam, 1, [1, 2]), ("L", fam, [0, 1, 3]), ("R", fam, 1, [])])
+        second = rng.pick([("K", fam, 1), ("C", fam), ("R", fam, 1, []), ("P", fam, 2), ("L", fam, [3]), ("G", fam), ("B", 1)])
     k = i % 9
     steps = [0] * k + [1] * 12 + [0] * 12
     return {"pool": pool, "setup": setup, "progs": [[first], [second]], "steps": steps}
@@ -144,7 +148,7 @@ class C15(PropBase):
             "empty name), 0-4 sequential set-up calls, then either one thread making 1-3 calls (its lock profile is observed: "
             "for every lock acquisition of the managers, the node store, the listener list and the breakers' state mutexes, the lock, the mode and the set of these locks "
             "held at that moment) or 2-3 real threads making 1-3 calls each - load-all, load-for-resource, append, clear, "
-            "clear-for-resource, get, get-for-resource over flow / hotspot / breaker / isolation / system managers (60% within "
+            "clear-for-resource, get, get-for-resource over flow / hotspot / breaker / isolation / system (load-all, append, clear, get) managers (60% within "
             "one family) and inbound entry build+exit with an argument - under a forced interleaving of the scheduling "
             "points placed before every lock acquisition (0-40 steps: round robin, random, runs; a thread that does not come "
             "back within 150 ms counts as blocked and is left alone); a fifth of the cases sweep every kind of call on a populated "
